@@ -44,7 +44,8 @@ Record rsrc := mkRsrc {
   rs_tpl : option bytes -> bytes -> res bytes;
   rs_menu : option bytes -> bytes -> res bytes;
   rs_func : bytes -> option (list fres);
-  rs_nofunc : bytes -> bytes          (* message of FuncFor's error for an unknown symbol *)
+  rs_nofunc : bytes -> bytes;         (* message of FuncFor's error for an unknown symbol *)
+  rs_observed : bool                  (* the application's resource (its code fetches are ghost-logged) *)
 }.
 
 Definition menu_suffix : bytes := s2b "_menu".
@@ -54,7 +55,8 @@ Definition app_rsrc (a : app) : rsrc :=
     (fun lang sym => match lookup_lang (a_tpl a) sym lang with Some t => Ok t | None => Err ENotFound end)
     (fun lang title => match lookup_lang (a_menu a) (title ++ menu_suffix) lang with Some t => Ok t | None => Ok title end)
     (fun sym => alookup sym (a_funcs a))
-    (fun _ => s2b "not a staticload getter").
+    (fun _ => s2b "not a staticload getter")
+    true.
 
 (* ---- ghost events ---------------------------------------------------------------- *)
 Inductive ev : Type :=
@@ -82,8 +84,8 @@ Definition vlog (v : vmst) (e : ev) := mkVm (v_st v) (v_ca v) (v_pg v) (v_w v) (
 Definition vtaint (v : vmst) := mkVm (v_st v) (v_ca v) (v_pg v) (v_w v) (v_log v) true.
 
 (* ---- Vm.Reset ---------------------------------------------------------------------- *)
-Definition default_sep : bytes := s2b default_menu_separator.
-Definition vm_new_menu (sep : bytes) : menu := new_menu (match sep with [] => default_sep | _ => sep end).
+Definition vm_default_sep : bytes := s2b default_menu_separator.
+Definition vm_new_menu (sep : bytes) : menu := new_menu (match sep with [] => vm_default_sep | _ => sep end).
 Definition vm_reset (sep : bytes) (pg : page) : page := page_with_menu (page_reset pg) (vm_new_menu sep).
 
 Definition upd_menu (f : menu -> menu) (pg : page) : page :=
@@ -154,7 +156,7 @@ Definition refresh (rs : rsrc) (lang : option bytes) (key : bytes) (v : vmst) : 
 Definition hres : Type := vmst * bytes * stat.
 
 Definition fetch_code (rs : rsrc) (sym : bytes) (v : vmst) : vmst * res bytes :=
-  (vlog v (EvCode sym), rs_code rs sym).
+  ((if rs_observed rs then vlog v (EvCode sym) else v), rs_code rs sym).
 
 Definition run_catch (rs : rsrc) (sym : bytes) (sig : N) (mode : bool) (b : bytes) (v : vmst) : hres :=
   match match_flag (v_st v) sig mode with
